@@ -46,6 +46,7 @@ type RespSpec struct {
 	Size    int    `json:"n"`
 	HSet    int    `json:"h"` // 0 plain | 1 repeated Set-Cookie, empty value, mixed case | 2 Content-Encoding: gzip with a gzip body
 	Close   bool   `json:"cl,omitempty"`
+	Split   string `json:"split,omitempty"` // how the origin cuts the response into writes: "" one write | headbody | lines | bytes
 	Early   bool   `json:"early,omitempty"` // the origin answers as soon as it has the request head, never reads the body, holds the connection
 }
 
@@ -57,9 +58,10 @@ type Exchange struct {
 type Scenario struct {
 	ID        int          `json:"id"`
 	Family    string       `json:"fam"`
-	Conns     [][]Exchange `json:"conns"`          // one exchange list per client connection (normally one connection)
-	Pipelined bool         `json:"pipe,omitempty"` // all requests written before the first response is read
-	Mode      string       `json:"mode,omitempty"` // "" | concurrent | stalled_reader
+	Conns     [][]Exchange `json:"conns"`           // one exchange list per client connection (normally one connection)
+	Pipelined bool         `json:"pipe,omitempty"`  // all requests written before the first response is read
+	Mode      string       `json:"mode,omitempty"`  // "" | concurrent | stalled_reader | interleaved
+	Sched     []int        `json:"sched,omitempty"` // interleaved: connection index of each step (even step of a connection = send its next request, odd = read and check its response)
 	AlsoTCP   bool         `json:"tcp,omitempty"`
 	BufCap    int          `json:"buf,omitempty"`
 }
@@ -127,6 +129,68 @@ type builtReq struct {
 	trailer []h1harness.HeaderField
 }
 
+// chunkSizes returns the chunk-size list of a chunked framing kind for an n-byte body.
+// Request kinds: ch1 [n], ch2 [1,n-1], chN [1]*n, chT [n]+trailer, ch4k [4096...], chPow [1,2,4,...],
+// chEnd1 [n-1,1], chExt [n] with a chunk extension. Response kinds: chunked, chunked2, chunked4k, chunkedPow,
+// chunkedEnd1, chunkedExt.
+func chunkSizes(kind string, n int) []int {
+	if n == 0 {
+		return nil
+	}
+	switch kind {
+	case "ch2", "chunked2":
+		if n >= 2 {
+			return []int{1, n - 1}
+		}
+	case "chEnd1", "chunkedEnd1":
+		if n >= 2 {
+			return []int{n - 1, 1}
+		}
+	case "chN":
+		out := make([]int, n)
+		for i := range out {
+			out[i] = 1
+		}
+		return out
+	case "ch4k", "chunked4k":
+		var out []int
+		for n > 0 {
+			k := 4096
+			if n < k {
+				k = n
+			}
+			out = append(out, k)
+			n -= k
+		}
+		return out
+	case "chPow", "chunkedPow":
+		var out []int
+		for k := 1; n > 0; k *= 2 {
+			if n < k {
+				k = n
+			}
+			out = append(out, k)
+			n -= k
+		}
+		return out
+	}
+	return []int{n}
+}
+
+func chunkedBody(kind string, p []byte) []byte {
+	var body []byte
+	for _, k := range chunkSizes(kind, len(p)) {
+		if kind == "chExt" || kind == "chunkedExt" {
+			body = append(body, fmt.Sprintf("%x;ext=1;q=\"v\"\r\n", k)...)
+			body = append(append(body, p[:k]...), '\r', '\n')
+		} else {
+			body = append(body, chunk(p[:k])...)
+		}
+		p = p[k:]
+	}
+	return body
+}
+
 func chunk(b []byte) []byte {
 	return append(append([]byte(fmt.Sprintf("%x\r\n", len(b))), b...), '\r', '\n')
 }
@@ -181,18 +245,7 @@ func buildReq(scID, conn, ex int, r ReqSpec) *builtReq {
 			add("Trailer", "X-Trail", false)
 			out.trailer = []h1harness.HeaderField{{Name: "X-Trail", Value: "t-" + tag(conn, ex)}}
 		}
-		p := out.payload
-		switch {
-		case len(p) == 0:
-		case r.Framing == "ch2" && len(p) >= 2:
-			body = append(chunk(p[:1]), chunk(p[1:])...)
-		case r.Framing == "chN":
-			for i := range p {
-				body = append(body, chunk(p[i:i+1])...)
-			}
-		default:
-			body = chunk(p)
-		}
+		body = chunkedBody(r.Framing, out.payload)
 		body = append(body, "0\r\n"...)
 		for _, tf := range out.trailer {
 			body = append(body, (tf.Name + ": " + tf.Value + "\r\n")...)
@@ -221,6 +274,7 @@ func buildReq(scID, conn, ex int, r ReqSpec) *builtReq {
 
 type builtResp struct {
 	wire    []byte
+	segs    [][]byte
 	status  int
 	headers []h1harness.HeaderField // end-to-end headers the origin sent
 	body    []byte                  // bytes of the body as the origin sent them (gzip bytes for hset 2)
@@ -271,7 +325,7 @@ func buildResp(scID, conn, ex int, method string, r RespSpec) *builtResp {
 		if nobody || r.Framing == "clhead" {
 			out.clHead = strconv.Itoa(len(payload))
 		}
-	case "chunked", "chunked2", "chunkedhead":
+	case "chunked", "chunked2", "chunkedhead", "chunked4k", "chunkedPow", "chunkedEnd1", "chunkedExt":
 		add("Transfer-Encoding", "chunked", false)
 	}
 	if r.Close {
@@ -279,6 +333,7 @@ func buildResp(scID, conn, ex int, method string, r RespSpec) *builtResp {
 		out.close = true
 	}
 	sb.WriteString("\r\n")
+	headLen := sb.Len()
 	if !nobody && r.Framing != "none" && r.Framing != "clhead" && r.Framing != "chunkedhead" {
 		out.body = payload
 		switch r.Framing {
@@ -287,17 +342,31 @@ func buildResp(scID, conn, ex int, method string, r RespSpec) *builtResp {
 		case "close":
 			sb.Write(payload)
 			out.close = true
-		case "chunked", "chunked2":
-			if r.Framing == "chunked2" && len(payload) >= 2 {
-				sb.Write(chunk(payload[:1]))
-				sb.Write(chunk(payload[1:]))
-			} else if len(payload) > 0 {
-				sb.Write(chunk(payload))
-			}
+		case "chunked", "chunked2", "chunked4k", "chunkedPow", "chunkedEnd1", "chunkedExt":
+			sb.Write(chunkedBody(r.Framing, payload))
 			sb.WriteString("0\r\n\r\n")
 		}
 	}
 	out.wire = sb.Bytes()
+	// how the origin cuts the response into write calls
+	switch r.Split {
+	case "headbody":
+		out.segs = [][]byte{out.wire[:headLen], out.wire[headLen:]}
+	case "lines": // one write per line of the head (every header boundary), then the body
+		h := out.wire[:headLen]
+		for len(h) > 0 {
+			i := bytes.Index(h, []byte("\r\n")) + 2
+			out.segs = append(out.segs, h[:i])
+			h = h[i:]
+		}
+		out.segs = append(out.segs, out.wire[headLen:])
+	case "bytes":
+		for i := range out.wire {
+			out.segs = append(out.segs, out.wire[i:i+1])
+		}
+	default:
+		out.segs = [][]byte{out.wire}
+	}
 	return out
 }
 
@@ -311,6 +380,9 @@ type bodyVariant struct {
 	size    int
 }
 
+// moreChunkLists (thorough) adds the chunk-size lists [4096...], [1,2,4,...], [n-1,1] and chunk extensions.
+var moreChunkLists bool
+
 func bodyVariants(sizes []int) []bodyVariant {
 	out := []bodyVariant{{"none", 0}, {"cl0", 0}, {"ch1", 0}, {"chT", 0}}
 	for _, n := range sizes {
@@ -322,6 +394,9 @@ func bodyVariants(sizes []int) []bodyVariant {
 			out = append(out, bodyVariant{"ch2", n})
 		}
 		out = append(out, bodyVariant{"chT", n})
+		if moreChunkLists && n >= 2 {
+			out = append(out, bodyVariant{"ch4k", n}, bodyVariant{"chPow", n}, bodyVariant{"chEnd1", n}, bodyVariant{"chExt", n})
+		}
 	}
 	out = append(out, bodyVariant{"chN", 3}, bodyVariant{"chN", 17})
 	return out
@@ -352,6 +427,11 @@ func respVariants(sizes []int) []RespSpec {
 					}
 				}
 				out = append(out, RespSpec{Status: st, Framing: "close", Size: n, HSet: hs})
+				if moreChunkLists && n >= 2 {
+					for _, f := range []string{"chunked4k", "chunkedPow", "chunkedEnd1", "chunkedExt"} {
+						out = append(out, RespSpec{Status: st, Framing: f, Size: n, HSet: hs})
+					}
+				}
 			}
 		}
 	}
@@ -409,10 +489,15 @@ var crossReq = []ReqSpec{
 	{Method: "PUT", Abs: false, Proto: "1.0", HSet: 0, Framing: "cl", Size: 4097, Seg: "split"},
 }
 
+// gen enumerates scenarios. Only the scenarios selected by keep are materialised (a worker keeps its own
+// share, the parent none), all of them are counted and deduplicated.
 type gen struct {
-	list []Scenario
-	seen map[string]bool
-	fam  map[string]int
+	n        int
+	kept     map[int]*Scenario
+	keep     func(id int) bool
+	thorough bool
+	seen     map[[20]byte]struct{}
+	fam      map[string]int
 }
 
 func (g *gen) add(s Scenario) {
@@ -427,25 +512,52 @@ func (g *gen) add(s Scenario) {
 	}
 	s.ID = 0
 	kb, _ := json.Marshal(s)
-	k := string(kb)
-	if g.seen[k] {
+	k := sha1.Sum(kb)
+	if _, dup := g.seen[k]; dup {
 		return
 	}
-	g.seen[k] = true
-	s.ID = len(g.list)
-	g.list = append(g.list, s)
+	g.seen[k] = struct{}{}
+	s.ID = g.n
+	g.n++
 	g.fam[s.Family]++
+	if g.keep == nil || !g.keep(s.ID) {
+		return
+	}
+	// loopback-TCP validation subset: quick: every 11th scenario of the single-exchange families and every
+	// 23rd sequence; thorough: every 53rd and every 307th; plus all of G
+	i := s.ID
+	switch {
+	case s.Family == "G_gzip_seq":
+		s.AlsoTCP = true
+	case s.Mode != "" || s.Family == "E_large" || s.Family == "H_early_response":
+	case g.thorough && strings.HasPrefix(s.Family, "D"):
+		s.AlsoTCP = i%307 == 0
+	case g.thorough: // sparser than quick: loopback sockets linger in TIME_WAIT and ephemeral ports are finite
+		s.AlsoTCP = i%53 == 0
+	case strings.HasPrefix(s.Family, "D"):
+		s.AlsoTCP = i%23 == 0
+	default:
+		s.AlsoTCP = i%11 == 0
+	}
+	for ci := range s.Conns { // the exchange slices may be shared with the enumerator: copy
+		s.Conns[ci] = append([]Exchange(nil), s.Conns[ci]...)
+	}
+	s.Conns = append([][]Exchange(nil), s.Conns...)
+	s.Sched = append([]int(nil), s.Sched...)
+	g.kept[s.ID] = &s
 }
 
 func single(fam string, r ReqSpec, p RespSpec) Scenario {
 	return Scenario{Family: fam, Conns: [][]Exchange{{{Req: r, Resp: p}}}}
 }
 
-func scenarios(tier string) ([]Scenario, map[string]int) {
-	g := &gen{seen: map[string]bool{}, fam: map[string]int{}}
+func scenarios(tier string, keep func(id int) bool) (map[int]*Scenario, int, map[string]int) {
+	g := &gen{seen: map[[20]byte]struct{}{}, fam: map[string]int{}, kept: map[int]*Scenario{}, keep: keep, thorough: tier == "thorough"}
+	thorough := tier == "thorough"
+	moreChunkLists = thorough
 	sizes := []int{0, 1, 4097}
-	if tier == "thorough" {
-		sizes = []int{0, 1, 4095, 4096, 4097, 32769}
+	if thorough {
+		sizes = []int{0, 1, 4095, 4096, 4097, 8191, 8192, 8193, 32767, 32768, 32769, 65535, 65536, 65537}
 	}
 	// Family A (request body relay): method x target form x {no Expect, Expect: 100-continue} x body framing x
 	// size x write segmentation; response fixed (200, Content-Length 1).
@@ -542,20 +654,8 @@ func scenarios(tier string) ([]Scenario, map[string]int) {
 	}
 	// Family D2 (thorough): all sequences of length 2 over a wider 8x8 alphabet (adds Expect: 100-continue, an
 	// implicit HTTP/1.0 close, gzip, 304 with Content-Length, 1xx-then-chunked)
-	if tier == "thorough" {
-		wreq := append(append([]ReqSpec(nil), redReq...),
-			ReqSpec{Method: "OPTIONS", Abs: false, Proto: "1.1", HSet: 7, Framing: "cl", Size: 1, Seg: "lines"},
-			ReqSpec{Method: "DELETE", Abs: true, Proto: "1.0", HSet: 6, Framing: "none", Seg: "one"})
-		wresp := append(append([]RespSpec(nil), redResp...),
-			RespSpec{Status: 200, Framing: "cl", Size: 4097, HSet: 2},
-			RespSpec{Status: 304, Framing: "clhead", Size: 4097},
-			RespSpec{Status: 201, Interim: true, Framing: "chunked", Size: 32769})
-		var walpha []Exchange
-		for _, r := range wreq {
-			for _, p := range wresp {
-				walpha = append(walpha, Exchange{r, p})
-			}
-		}
+	if thorough {
+		walpha := wideAlphabet()
 		for _, pipe := range []bool{false, true} {
 			fam := "D2_seq_wide"
 			if pipe {
@@ -641,21 +741,175 @@ func scenarios(tier string) ([]Scenario, map[string]int) {
 			g.add(Scenario{Family: "F_stalled_reader", Conns: [][]Exchange{{a}, {b, b}}, Mode: "stalled_reader", BufCap: 8 << 10})
 		}
 	}
-	// loopback-TCP validation subset: every 11th scenario of the single-exchange families and every 23rd
-	// sequence, plus all of G.
-	for i := range g.list {
-		s := &g.list[i]
-		switch {
-		case s.Family == "G_gzip_seq":
-			s.AlsoTCP = true
-		case s.Mode != "" || s.Family == "E_large" || s.Family == "H_early_response":
-		case strings.HasPrefix(s.Family, "D"):
-			s.AlsoTCP = i%23 == 0
-		default:
-			s.AlsoTCP = i%11 == 0
+	if thorough {
+		deepFamilies(g, alpha)
+	}
+	return g.kept, g.n, g.fam
+}
+
+// wide 8x8 exchange alphabet (adds Expect: 100-continue, an implicit HTTP/1.0 close, gzip, 304 with
+// Content-Length, 1xx-then-chunked to the 6x5 reduced alphabet)
+func wideAlphabet() []Exchange {
+	wreq := append(append([]ReqSpec(nil), redReq...),
+		ReqSpec{Method: "OPTIONS", Abs: false, Proto: "1.1", HSet: 7, Framing: "cl", Size: 1, Seg: "lines"},
+		ReqSpec{Method: "DELETE", Abs: true, Proto: "1.0", HSet: 6, Framing: "none", Seg: "one"})
+	wresp := append(append([]RespSpec(nil), redResp...),
+		RespSpec{Status: 200, Framing: "cl", Size: 4097, HSet: 2},
+		RespSpec{Status: 304, Framing: "clhead", Size: 4097},
+		RespSpec{Status: 201, Interim: true, Framing: "chunked", Size: 32769})
+	var walpha []Exchange
+	for _, r := range wreq {
+		for _, p := range wresp {
+			walpha = append(walpha, Exchange{r, p})
 		}
 	}
-	return g.list, g.fam
+	return walpha
+}
+
+// interleavings calls f with every merge of the per-connection step lists (counts[i] steps of connection i,
+// each connection's steps in order).
+func interleavings(counts []int, f func(sched []int)) {
+	total := 0
+	for _, c := range counts {
+		total += c
+	}
+	left := append([]int(nil), counts...)
+	cur := make([]int, 0, total)
+	var rec func()
+	rec = func() {
+		if len(cur) == total {
+			f(cur)
+			return
+		}
+		for c := range left {
+			if left[c] > 0 {
+				left[c]--
+				cur = append(cur, c)
+				rec()
+				cur = cur[:len(cur)-1]
+				left[c]++
+			}
+		}
+	}
+	rec()
+}
+
+// deepFamilies: thorough-only families.
+func deepFamilies(g *gen, alpha []Exchange) {
+	walpha := wideAlphabet()
+	// D3: all sequences of length 3 over the wide 8x8 alphabet, sequential and pipelined
+	// D4: all sequences of length 4 over the reduced 6x5 alphabet, sequential and pipelined
+	for _, pipe := range []bool{false, true} {
+		sfx := ""
+		if pipe {
+			sfx = "_pipelined"
+		}
+		// (sequences that end early because an exchange closes the connection are the shorter sequences
+		// already enumerated by D and D2)
+		exs := make([]Exchange, 3)
+		for _, a := range walpha {
+			if a.closes() {
+				continue
+			}
+			for _, b := range walpha {
+				if b.closes() {
+					continue
+				}
+				for _, c := range walpha {
+					exs[0], exs[1], exs[2] = a, b, c
+					g.add(Scenario{Family: "D3_seq_wide_len3" + sfx, Conns: [][]Exchange{exs}, Pipelined: pipe})
+				}
+			}
+		}
+		ex4 := make([]Exchange, 4)
+		for _, a := range alpha {
+			if a.closes() {
+				continue
+			}
+			for _, b := range alpha {
+				if b.closes() {
+					continue
+				}
+				for _, c := range alpha {
+					if c.closes() {
+						continue
+					}
+					for _, d := range alpha {
+						ex4[0], ex4[1], ex4[2], ex4[3] = a, b, c, d
+						g.add(Scenario{Family: "D4_seq_len4" + sfx, Conns: [][]Exchange{ex4}, Pipelined: pipe})
+					}
+				}
+			}
+		}
+	}
+	// S: origin responses cut into several writes at every header/body boundary (one write per head line, then
+	// the body), at the head/body boundary, and byte by byte for short responses
+	for _, m := range []string{"GET", "HEAD", "POST"} {
+		for _, hs := range []int{0, 5} {
+			for _, p := range respVariants([]int{0, 1, 4097, 8193}) {
+				for _, sp := range []string{"headbody", "lines", "bytes"} {
+					if sp == "bytes" && (p.Size > 1 || p.HSet == 1) {
+						continue
+					}
+					r := ReqSpec{Method: m, Abs: true, Proto: "1.1", HSet: hs, Framing: "none", Seg: "one"}
+					if m == "POST" {
+						r.Framing, r.Size = "cl", 1
+					}
+					p.Split = sp
+					g.add(single("S_resp_split", r, p))
+				}
+			}
+		}
+	}
+	for _, pipe := range []bool{false, true} {
+		for _, a := range alpha {
+			for _, b := range alpha {
+				for _, sp := range []string{"headbody", "lines"} {
+					a.Resp.Split, b.Resp.Split = sp, sp
+					g.add(Scenario{Family: "S_resp_split_seq", Conns: [][]Exchange{{a, b}}, Pipelined: pipe})
+				}
+			}
+		}
+	}
+	// I: 2-3 client connections on one proxy whose requests interleave in a scripted order: every merge of
+	// the connections' step lists (send request k / read response k), over a 4-exchange alphabet
+	ia := []Exchange{
+		{ReqSpec{Method: "GET", Abs: true, Proto: "1.1", Framing: "none", Seg: "one"}, RespSpec{Status: 200, Framing: "cl", Size: 4097, HSet: 1}},
+		{ReqSpec{Method: "POST", Abs: false, Proto: "1.1", HSet: 1, Framing: "cl", Size: 4097, Seg: "split"}, RespSpec{Status: 200, Framing: "chunked2", Size: 8193}},
+		{ReqSpec{Method: "HEAD", Abs: true, Proto: "1.1", Framing: "none", Seg: "one"}, RespSpec{Status: 200, Framing: "clhead", Size: 4097}},
+		{ReqSpec{Method: "PUT", Abs: true, Proto: "1.1", Framing: "chT", Size: 4097, Seg: "one"}, RespSpec{Status: 204, Framing: "none"}},
+	}
+	interleavings([]int{4, 4}, func(sched []int) { // 2 connections x 2 exchanges: 70 schedules x 4^4 exchange choices
+		for _, a1 := range ia {
+			for _, a2 := range ia {
+				for _, b1 := range ia {
+					for _, b2 := range ia {
+						g.add(Scenario{Family: "I_interleaved_2x2", Conns: [][]Exchange{{a1, a2}, {b1, b2}}, Mode: "interleaved", Sched: sched})
+					}
+				}
+			}
+		}
+	})
+	interleavings([]int{2, 2, 2}, func(sched []int) { // 3 connections x 1 exchange: 90 schedules x 4^3
+		for _, a := range ia {
+			for _, b := range ia {
+				for _, c := range ia {
+					g.add(Scenario{Family: "I_interleaved_3x1", Conns: [][]Exchange{{a}, {b}, {c}}, Mode: "interleaved", Sched: sched})
+				}
+			}
+		}
+	})
+	interleavings([]int{4, 2, 2}, func(sched []int) { // 3 connections, 2+1+1 exchanges: 420 schedules x 2^4 choices
+		for _, a1 := range ia[:2] {
+			for _, a2 := range ia[2:] {
+				for _, b := range ia[:2] {
+					for _, c := range ia[1:3] {
+						g.add(Scenario{Family: "I_interleaved_3x211", Conns: [][]Exchange{{a1, a2}, {b}, {c}}, Mode: "interleaved", Sched: sched})
+					}
+				}
+			}
+		}
+	})
 }
 
 // ---------------------------------------------------------------------------------------------------
@@ -817,7 +1071,7 @@ func (o *originScript) handler(conn, idx int, req *h1harness.RawRequest, perr er
 	if r == nil {
 		return h1harness.Action{Write: [][]byte{[]byte("HTTP/1.1 599 Unknown Exchange\r\nContent-Length: 0\r\n\r\n")}}
 	}
-	return h1harness.Action{Write: [][]byte{r.wire}, Close: r.close}
+	return h1harness.Action{Write: r.segs, Close: r.close}
 }
 
 func (o *originScript) early(conn, idx int, head *h1harness.RawRequest) *h1harness.Action {
@@ -831,7 +1085,7 @@ func (o *originScript) early(conn, idx int, head *h1harness.RawRequest) *h1harne
 	if r == nil || !r.early {
 		return nil
 	}
-	return &h1harness.Action{Write: [][]byte{r.wire}}
+	return &h1harness.Action{Write: r.segs}
 }
 
 // runConn drives one client connection through its exchanges and applies the reference model.
@@ -942,6 +1196,87 @@ func runConn(env *h1harness.Env, s *Scenario, ci int, script *originScript, out 
 		mu.Lock()
 		out.findings = append(out.findings, finding{len(exs) - 1, "client_connection_close", "conn_not_closed", fmt.Sprintf("after the final request, which carried Connection: close: %d extra bytes, end=%s", len(extra), end)})
 		mu.Unlock()
+	}
+}
+
+// runInterleaved drives several client connections from one script thread: step i belongs to connection
+// s.Sched[i]; a connection's even steps send its next request, its odd steps read and check the response.
+// Afterwards every connection is probed and closed.
+func runInterleaved(env *h1harness.Env, s *Scenario, script *originScript, out *runOut, mu *sync.Mutex) {
+	type cstate struct {
+		cl   *h1harness.Client
+		step int
+		dead bool
+	}
+	cs := make([]*cstate, len(s.Conns))
+	for ci := range s.Conns {
+		cl, err := env.NewClient()
+		if err != nil {
+			out.findings = append(out.findings, finding{0, "harness", "client_dial_failed", err.Error()})
+			return
+		}
+		if out.quiet > 0 {
+			cl.QuietTimeout = out.quiet
+		}
+		cs[ci] = &cstate{cl: cl}
+	}
+	mk := func(ci int) (func(int, string, string), func(string)) {
+		exs := s.Conns[ci]
+		return func(k int, sym, detail string) {
+				out.findings = append(out.findings, finding{k, classOf(s, exs[min(k, len(exs)-1)]), sym, detail})
+			}, func(o string) {
+				out.outcome = append(out.outcome, fmt.Sprintf("c%d:%s", ci, o))
+			}
+	}
+	for _, ci := range s.Sched {
+		c := cs[ci]
+		if c.dead {
+			continue
+		}
+		k := c.step / 2
+		e := s.Conns[ci][k]
+		report, addOutcome := mk(ci)
+		if c.step%2 == 0 {
+			if err := c.cl.Send(buildReq(s.ID, ci, k, e.Req).segs...); err != nil {
+				report(k, "conn_closed_early", "writing request failed: "+err.Error())
+				c.dead = true
+			}
+		} else {
+			res := c.cl.ReadResponse(e.Req.Method)
+			out.exchanges++
+			if res.HeadErr == "" {
+				out.reached[tag(ci, k)] = true
+			}
+			if !checkResponse(s, e, tag(ci, k), k, res, script.resps[tag(ci, k)], report, addOutcome, out, mu) {
+				c.dead = true
+			} else if left := c.cl.Leftover(); len(left) > 0 {
+				report(k, "resp_trailing_garbage", fmt.Sprintf("%d bytes follow the complete response although no further request was sent: %q", len(left), trunc(left, 80)))
+				c.dead = true
+			}
+		}
+		c.step++
+	}
+	for ci, c := range cs {
+		if c.dead {
+			continue
+		}
+		report, addOutcome := mk(ci)
+		last := len(s.Conns[ci]) - 1
+		probe := []byte("GET http://" + originHost + "/probe-" + tag(ci, 0) + " HTTP/1.1\r\nHost: " + originHost + "\r\nConnection: close\r\n\r\n")
+		if err := c.cl.Send(probe); err != nil {
+			report(last, "conn_closed_early", "connection not usable for the next request: "+err.Error())
+			continue
+		}
+		res := c.cl.ReadResponse("GET")
+		if res.HeadErr != "" || res.Status != 200 || string(res.Body) != "probe-ok" || res.BodyEnd != h1harness.EndOK {
+			report(last, "next_request_not_served", fmt.Sprintf("follow-up request on the same connection: head=%q status=%d body=%q end=%s", res.HeadErr, res.Status, trunc(res.Body, 60), res.BodyEnd))
+			continue
+		}
+		extra, end := c.cl.Drain()
+		addOutcome("probe_ok,end=" + end)
+		if len(extra) > 0 || end != h1harness.EndEOF {
+			out.findings = append(out.findings, finding{last, "client_connection_close", "conn_not_closed", fmt.Sprintf("after the final request, which carried Connection: close: %d extra bytes, end=%s", len(extra), end)})
+		}
 	}
 }
 
@@ -1190,6 +1525,8 @@ func runScenario(s *Scenario, kind string, quiet time.Duration) *runOut {
 			}
 			runConn(env, s, 1, script, out, &mu, nil)
 		})
+	case "interleaved":
+		runInterleaved(env, s, script, out, &mu)
 	default:
 		runConn(env, s, 0, script, out, &mu, nil)
 	}
@@ -1270,6 +1607,9 @@ func runCase(s *Scenario) *h1harness.CaseResult {
 		var tsyms []string
 		for _, f := range t.findings {
 			tsyms = append(tsyms, sigOf(f))
+			if f.class == "harness" {
+				tsyms[len(tsyms)-1] += "(" + f.detail + ")"
+			}
 		}
 		sort.Strings(syms)
 		sort.Strings(tsyms)
@@ -1310,18 +1650,20 @@ func abstractOutcome(o []string) string {
 
 func main() {
 	tier := lib.Tier()
-	list, fams := scenarios(tier)
 	if rp := os.Getenv("VERIF_REPLAY"); rp != "" {
 		replay(rp)
 		return
 	}
 	if h1harness.IsWorker() {
-		h1harness.WorkerMain(4, 180*time.Second, func(idx int) *h1harness.CaseResult { return runCase(&list[idx]) })
+		list, _, _ := scenarios(tier, h1harness.WorkerKeeps())
+		h1harness.WorkerMain(4, 180*time.Second, func(idx int) *h1harness.CaseResult { return runCase(list[idx]) })
 		return
 	}
+	_, total, fams := scenarios(tier, nil) // the parent only counts; workers materialise their own shares
 	rep := lib.NewReport("C01", "model_checking")
-	agg := h1harness.RunAll(16, len(list), lib.Root+"/.build/c01/work", func(idx int, stderr string) (string, string, interface{}) {
-		s := &list[idx]
+	agg := h1harness.RunAll(16, total, lib.Root+"/.build/c01/work", func(idx int, stderr string) (string, string, interface{}) {
+		one, _, _ := scenarios(tier, func(id int) bool { return id == idx })
+		s := one[idx]
 		return classOf(s, s.Conns[0][0]) + ":crash", fmt.Sprintf("scenario %s terminates the proxy process: %s", describe(s), tail(stderr, 1500)), s
 	})
 	if agg.EngineErr != "" {
@@ -1329,8 +1671,8 @@ func main() {
 		os.Exit(2)
 	}
 	agg.Apply(rep)
-	if agg.Executed != len(list) {
-		rep.Incomplete = fmt.Sprintf("%d of %d scenarios executed", agg.Executed, len(list))
+	if agg.Executed != total {
+		rep.Incomplete = fmt.Sprintf("%d of %d scenarios executed", agg.Executed, total)
 	}
 	if n := rep.Counter("mem_tcp_disagreements"); n > 0 {
 		rep.Incomplete = fmt.Sprintf("%d in-memory/TCP disagreements (harness fidelity problem, see harness_notes)", n)
@@ -1339,16 +1681,16 @@ func main() {
 		}
 	}
 	rep.Coverage["families"] = fams
-	rep.Coverage["states"] = len(list)
+	rep.Coverage["states"] = total
 	rep.Coverage["transitions"] = rep.Counter("exchanges") + rep.Counter("origin_requests")
 	rep.Coverage["traces_validated_against_impl"] = rep.Counter("scenarios") + rep.Counter("tcp_runs")
 	rep.Coverage["evaluations"] = rep.Counter("exchanges")
 	rep.Coverage["distinct_nontrivial"] = rep.Counter("nontrivial")
 	rep.Coverage["distinct_outcomes"] = len(agg.Keys["outcomes"])
 	rep.Coverage["exhaustive"] = rep.Incomplete == ""
-	rep.Coverage["rule"] = "every scenario of the families A (request body: 7 methods x 2 target forms x {no Expect, Expect} x body framings x sizes x write segmentations), B (request head: methods x target forms x 9 header sets x {1.1,1.0,1.0+keep-alive} x Connection: close x {no body, 1 byte}), C (response: {GET,HEAD,POST} x client Accept-Encoding {absent,gzip,identity} x protocol x every origin response shape: status x framing x size x header set x Connection: close, bodiless statuses, 1xx-then-final), X (12 request shapes x all response shapes), D (all sequences over the 6x5 reduced exchange alphabet, sequential and pipelined), G (gzip then a second exchange), E (large bodies), F (3 concurrent connections / a stalled reader on one proxy) is executed once; scenarios are deduplicated after truncation at the first closing exchange. A scenario is non-trivial when it relays at least one non-empty body or more than one exchange."
-	rep.Coverage["bounds"] = fmt.Sprintf("tier %s: %d scenarios (families %v); sizes %s; sequences of length <= %d; <= 3 client connections; bodies <= %s", tier, len(list), fams,
-		map[string]string{"quick": "{0,1,4097} + 300001", "thorough": "{0,1,4095,4096,4097,32769} + 300001, 1 MiB+3, 4 MiB"}[tier], map[string]int{"quick": 2, "thorough": 3}[tier], map[string]string{"quick": "300001 B", "thorough": "4 MiB"}[tier])
+	rep.Coverage["rule"] = "every scenario of the families A (request body: 7 methods x 2 target forms x {no Expect, Expect} x body framings x sizes x write segmentations), B (request head: methods x target forms x 9 header sets x {1.1,1.0,1.0+keep-alive} x Connection: close x {no body, 1 byte}), C (response: {GET,HEAD,POST} x client Accept-Encoding {absent,gzip,identity} x protocol x every origin response shape: status x framing x size x header set x Connection: close, bodiless statuses, 1xx-then-final), X (12 request shapes x all response shapes), D (all sequences over the 6x5 reduced exchange alphabet, sequential and pipelined), G (gzip then a second exchange), E (large bodies), F (3 concurrent connections / a stalled reader on one proxy) and, in the thorough tier, D2 (length 2 over the wide 8x8 alphabet), D3 (length 3 over the wide alphabet), D4 (length 4 over the reduced alphabet), all sequential and pipelined, S (origin response cut into several writes: head/body, one write per head line, byte by byte), I (2-3 client connections whose send/receive steps interleave in every scripted order), sizes around the 4096/8192/32768/65536 boundaries and the chunk-size lists [n], [1,n-1], [n-1,1], [1]*n, [4096...], [1,2,4,...], chunk extensions, trailers is executed once; scenarios are deduplicated after truncation at the first closing exchange. A scenario is non-trivial when it relays at least one non-empty body or more than one exchange."
+	rep.Coverage["bounds"] = fmt.Sprintf("tier %s: %d scenarios (families %v); sizes %s; sequences of length <= %d; <= 3 client connections; bodies <= %s", tier, total, fams,
+		map[string]string{"quick": "{0,1,4097} + 300001", "thorough": "{0,1,4095..4097,8191..8193,32767..32769,65535..65537} + 300001, 1 MiB+3, 4 MiB"}[tier], map[string]int{"quick": 2, "thorough": 4}[tier], map[string]string{"quick": "300001 B", "thorough": "4 MiB"}[tier])
 	rep.Assumptions = []string{
 		"in-memory connections model TCP (bounded buffers, EOF after buffered bytes, EPIPE on write to a closed peer); a deterministic subset of scenarios is re-run over loopback TCP and any difference in outcome is reported as a harness problem (coverage.mem_tcp_disagreements)",
 		"framing headers (Content-Length, Transfer-Encoding) and RFC 7230 6.1 hop-by-hop headers are not compared; bodies are compared after de-framing; header names are compared case-insensitively; headers added by the proxy/transport are allowed; request trailers may be dropped (RFC 9112 7.1.2) and are only counted",
